@@ -58,14 +58,14 @@ Boolean FloatRangeCheck(Double Wert, FloatType Typ) { Boolean r; (void)Wert; (vo
 Boolean MultiCharToInt(TempResult* pResult, unsigned MaxLen) { (void)pResult; (void)MaxLen; return False; }
 /* buffer growth: same decisions as asmdef.c's SetMaxCodeLen; the monitor checks that the
  * requested size is the true (64-bit) need, i.e. that the caller's arithmetic did not wrap */
-static long long g_need;
+static long long g_need; static int g_setmax_nobound;
 int SetMaxCodeLen(LongWord NewMaxCodeLen) {
     g_setmax_calls++;
     VASSERT((long long)NewMaxCodeLen == (long long)CodeLen + (long long)g_rep * g_wsize,
             "C09: DC reserves exactly CodeLen + Rep*size bytes (no 32-bit wrap) before writing");
     if (NewMaxCodeLen > MaxCodeLen_Max) return 1;
     /* from here on the repetition loops are explored for small counts only (bounded) */
-    VASSUME(g_rep <= 2);
+    if (!g_setmax_nobound) VASSUME(g_rep <= 2);
     if (NewMaxCodeLen > MaxCodeLen) {
         free(BAsmCode);
         BAsmCode = malloc(NewMaxCodeLen);
@@ -221,4 +221,25 @@ void h_DecodeMotoDC(void) {
     VPOST(g_pad_calls <= 1 && (g_pad_calls == 0 || pad_expected), "C09: DC pads only at an odd address with PADDING on and a size above 8 bits");
     VPOST(!(g_err_cnt == ec && ArgCnt >= 1 && pad_expected && CodeLen > 0) || g_pad_calls == 1, "C09: DC pads before the first element when required");
     VREACH("end");
+}
+
+/* SetRepCodeLen: room for Rep elements of ElemBytes bytes behind the code emitted so far.  For EVERY repeat count and element
+ * size: either the request is refused (code overflow), or the buffer really holds CodeLen + Rep * ElemBytes bytes -- the size is
+ * never a wrapped-around small number (dc.l [$40000000]1 used to reserve 0 bytes and then write 4 GiB). */
+void h_SetRepCodeLen(void) {
+    long long rep, elem; int r; unsigned long calls0;
+    VND(rep, i64); VND(elem, i64); VASSUME(elem >= 0 && elem <= 0xffffffffLL && rep >= -2147483648LL && rep <= 2147483647LL);
+    VND(CodeLen, int); VASSUME(CodeLen >= 0 && CodeLen <= 65535);
+    VND(MaxCodeLen, uint); VASSUME(MaxCodeLen >= 1 && MaxCodeLen <= 65535 && (unsigned)CodeLen <= MaxCodeLen);
+    BAsmCode = malloc(MaxCodeLen); VASSUME(BAsmCode != NULL);
+    g_rep = rep; g_wsize = elem; g_setmax_nobound = 1; g_setmax_calls = 0; calls0 = 0;
+    r = SetRepCodeLen(rep, elem);
+    if (r == 0) {
+        VPOST(rep >= 0 && (long long)CodeLen + rep * elem <= 65535, "C09: a repeat count is accepted only if CodeLen + Rep * size fits the code buffer limit (computed without wrap-around)");
+        VPOST((long long)MaxCodeLen >= (long long)CodeLen + rep * elem, "C03: after a successful reservation the buffer holds all Rep * size bytes that will be written");
+        VREACH("ok");
+    } else {
+        VPOST(rep < 0 || (long long)CodeLen + rep * elem > 65535, "C09: a repeat count is refused only if it does not fit");
+        VREACH("refused");
+    }
 }
